@@ -91,12 +91,23 @@ func RunStress(seed int64, o StressOpts) *StressResult {
 	}
 	st := &core.RecStore{}
 	outStore := core.NewMemOutputStore()
-	sys, err := core.NewSys(gen.BuildDefs(specsA), st, outStore)
+	// the definitions object is the caller's: the embedding code keeps reading it, and a second runner is built from
+	// the SAME object (as an application with two runners would do). Reloading the first runner must touch neither.
+	sharedDefs := gen.BuildDefs(specsA)
+	sys, err := core.NewSys(sharedDefs, st, outStore)
 	if err != nil {
 		res.Inconclusive = err.Error()
 		return out
 	}
 	defer sys.Close()
+	var sibling *core.Sys
+	if o.Reloader {
+		if sibling, err = core.NewSys(sharedDefs, &core.RecStore{}, core.NewMemOutputStore()); err == nil {
+			defer sibling.Close()
+		} else {
+			sibling = nil
+		}
+	}
 	if o.RealRunner {
 		sys.MakeRunner = func(j *prunner.PipelineJob) taskctl.Runner {
 			tr, _ := taskctl.NewTaskRunner(outStore, taskctl.WithEnv(variables.FromMap(j.Env)), taskctl.WithKillTimeout(50*time.Millisecond))
@@ -239,6 +250,22 @@ func RunStress(seed int64, o StressOpts) *StressResult {
 				}
 				pause(rr)
 			}
+		})
+	}
+	if o.Reloader && sibling != nil {
+		// the sibling runner lists its pipelines and the caller reads its own definitions while the first runner reloads
+		spawn(func(c int, rr *rand.Rand) {
+			n := 0
+			for k := 0; k < o.OpsPerClient; k++ {
+				for _, pi := range sibling.ListPipelines(-1) {
+					n += len(pi.Pipeline)
+				}
+				for name, pd := range sharedDefs.Pipelines {
+					n += len(name) + pd.Concurrency + len(pd.Tasks)
+				}
+				pause(rr)
+			}
+			_ = n
 		})
 	}
 	if o.Reloader {
